@@ -19,8 +19,8 @@ None == [k |-> "none"]
 RB == IF Deep THEN {0, 1, 2, 5, 8, 9, 15, 16, 31} ELSE {0, 1, 2, 8, 15, 31}
 Triples == {<<r, r, r>> : r \in RB} \cup {<<10, 11, 12>>, <<8, 9, 9>>, <<9, 8, 8>>, <<1, 2, 0>>, <<0, 1, 2>>, <<31, 0, 15>>,
                                          <<2, 2, 9>>, <<12, 12, 13>>, <<5, 0, 0>>}
-ExeTriples == IF Deep THEN Triples ELSE {<<10, 11, 12>>, <<9, 9, 9>>, <<8, 9, 8>>, <<1, 2, 0>>, <<0, 1, 2>>}
-ExePlans == IF Deep THEN 1..Len(PairPlan) ELSE {1, 3, 5, 7, 10}
+ExeTriples == IF Deep THEN Triples ELSE {<<10, 11, 12>>, <<9, 9, 9>>, <<8, 9, 8>>, <<1, 2, 0>>}
+ExePlans == IF Deep THEN 1..Len(PairPlan) ELSE {1, 3, 5, 7}
 ImmsOf(m) == LET fr == FieldRange(m) IN
              IF fr.kind = "n" THEN {0} ELSE {Labelled(fr)[k][2] : k \in 1..Len(Labelled(fr))}
 AllMn == Mn32 \cup Mn16
